@@ -3,7 +3,7 @@
 The real keypress thread, the real should_exit flag, the real _save_session / .sav / .omn code run; only
  * builtins.input is replaced by a stand-in that blocks until the monitor hands it a line (or EOF / an error),
  * time.sleep inside lib_guesser.cracking_session is a no-op,
- * PcfgGrammar.print_guess is replaced by a recorder (stdout is observed separately by the CLI-level checks),
+ * PcfgGrammar.print_guess is wrapped by a recorder; the real print runs against a captured standard output, which must hold exactly the recorded guess lines,
  * PcfgQueue.next is wrapped to produce POP events.
 The monitor decides *when* (in logical time: after the k-th POP / the n-th GUESS) input arrives, and then waits until the
 keypress thread has consumed it, so cut positions are deterministic although two real threads are involved."""
@@ -55,7 +55,9 @@ class Result:
         self.guesses = []        # every string handed to print_guess, in order
         self.pops = []           # {'key','prob','base_prob','first_guess': index into guesses}
         self.stderr = ''
-        self.stdout = ''
+        self.stdout = ''         # what reached standard output BESIDES the guesses (must stay empty)
+        self.stdout_missing = [] # guesses handed to print_guess whose line never reached standard output
+        self.stdout_reordered = False
         self.exc = None
         self.saves = 0
         self.events = []         # coarse event log (POP k / SAVE / QUIT-DELIVERED ...)
@@ -125,6 +127,8 @@ def run_main(argv, trigger=None, stdin=None, close_stdin_at_end=True, keep_input
     def rec_print(self, g):
         ctx.pcfg = self
         res.guesses.append(g)
+        res.debug = bool(getattr(self, 'debug', False))
+        orig_print(self, g)      # the real print statement runs against the captured standard output
         if len(res.guesses) > (max_guesses if max_guesses is not None else 20000000):
             raise RunawayOutput(f'more than {max_guesses if max_guesses is not None else 20000000} guesses: the run does not stop')
         if trigger:
@@ -174,7 +178,20 @@ def run_main(argv, trigger=None, stdin=None, close_stdin_at_end=True, keep_input
             builtins.input = old_input
         else:
             res.restore_input = lambda: setattr(builtins, 'input', old_input)
-    res.stderr, res.stdout = err.getvalue(), out.getvalue()
+    res.stderr, raw = err.getvalue(), out.getvalue()
+    exp = ''.join(g + '\n' for g in res.guesses)
+    if getattr(res, 'debug', False) or res.exc is not None and isinstance(res.exc, RunawayOutput):
+        res.stdout = raw
+    elif raw != exp:
+        # C09: standard output is exactly the guess stream.  Separate what is there besides the guesses from the guesses that never arrived.
+        from collections import Counter
+        got, want = Counter(raw.split('\n')[:-1] if raw.endswith('\n') else raw.split('\n')), Counter(res.guesses)
+        extra, missing = got - want, want - got
+        res.stdout = '\n'.join(extra.elements())
+        res.stdout_missing = list(missing.elements())
+        if not extra and not missing:
+            res.stdout_reordered = True
+            res.stdout = '(the guess lines reached standard output in another order than print_guess was called)'
     return res
 
 def session_files(name):
